@@ -334,11 +334,15 @@ where
         if let Some(this) = this {
             let this_range = this.to_range().shift(input.get_old_reference());
             if invalid(&input, &this_range) {
+                #[cfg(feature = "verif")]
+                crate::verif::count(&crate::verif::INVALIDATED);
                 return affected_error(input);
             }
             // TODO: maybe dynamic affection range
             let affected_range = this_range.start..(this_range.end + 1);
             if input.token_change.overlaps(&affected_range) {
+                #[cfg(feature = "verif")]
+                crate::verif::count(&crate::verif::REPARSED);
                 match inner_parser.parse(input) {
                     Ok(result) => Ok(result),
                     Err(nom::Err::Error(err)) => affected_error(err.input),
@@ -357,6 +361,8 @@ where
 
                 // Delete build and semantic errors from unaffected node.
                 // If the error persists, it will be re-added in the next phase.
+                #[cfg(feature = "verif")]
+                crate::verif::count(&crate::verif::REUSED);
                 let mut this_clone = this.clone();
                 this_clone.traverse_mut(remove_messages);
                 Ok((input.advance(this_range.len()), this_clone))
